@@ -5,6 +5,8 @@
  *   RDSHIM_CALL   stat | open | read | opendir | readdir | readlink | fiemap
  *   RDSHIM_ERRNO  errno value to fail with (13 EACCES, 5 EIO, 2 ENOENT)
  *   RDSHIM_NTH    fail only the n-th matching call (1-based, process-wide counter); 0 = every matching call
+ *   RDSHIM_ACTION fail (default) | flip : instead of failing, the hit call is preceded by an IN-PLACE overwrite of the first
+ *                 byte of RDSHIM_PATH (same length, new mtime) and then proceeds — an external writer at a precise point
  *   RDSHIM_LOG    file to append one line per matching call to ("<call> <n> <fail|pass> <path>")
  * read/fiemap: apply to file descriptors obtained by open*() on RDSHIM_PATH; readdir: to DIR* from opendir(RDSHIM_PATH).
  * The logger uses raw syscalls so that it does not recurse into its own wrappers.
@@ -71,6 +73,19 @@ static int hit(const char *call, const char *path) {
     return fail;
 }
 
+/* RDSHIM_ACTION=flip: overwrite byte 0 of the file in place (raw syscalls), return 1 so that the call proceeds */
+static int flip_instead(void) {
+    const char *a = getenv("RDSHIM_ACTION");
+    if (!a || strcmp(a, "flip") != 0 || !g_path) return 0;
+    int fd = (int)syscall(SYS_openat, AT_FDCWD, g_path, O_RDWR, 0);
+    if (fd >= 0) {
+        unsigned char c = 0;
+        if (syscall(SYS_pread64, fd, &c, (size_t)1, (off_t)0) == 1) { c ^= 0x55; syscall(SYS_pwrite64, fd, &c, (size_t)1, (off_t)0); }
+        syscall(SYS_close, fd);
+    }
+    return 1;
+}
+
 #define NEXT(name) ((__typeof__(&name))dlsym(RTLD_NEXT, #name))
 
 static int is_plain_read_open(int flags) { return (flags & O_ACCMODE) == O_RDONLY && !(flags & O_DIRECTORY); }
@@ -78,7 +93,7 @@ static int is_plain_read_open(int flags) { return (flags & O_ACCMODE) == O_RDONL
 int open(const char *path, int flags, ...) {
     va_list ap; va_start(ap, flags); mode_t mode = va_arg(ap, int); va_end(ap);
     int m = path_matches(path) && is_plain_read_open(flags);
-    if (m && hit("open", path)) { errno = g_errno; return -1; }
+    if (m && hit("open", path)) { if (!flip_instead()) { errno = g_errno; return -1; } }
     int fd = NEXT(open)(path, flags, mode);
     if (fd >= 0 && fd < MAXFD) g_fd_match[fd] = m ? 1 : 0;
     return fd;
@@ -86,7 +101,7 @@ int open(const char *path, int flags, ...) {
 int open64(const char *path, int flags, ...) {
     va_list ap; va_start(ap, flags); mode_t mode = va_arg(ap, int); va_end(ap);
     int m = path_matches(path) && is_plain_read_open(flags);
-    if (m && hit("open", path)) { errno = g_errno; return -1; }
+    if (m && hit("open", path)) { if (!flip_instead()) { errno = g_errno; return -1; } }
     int fd = NEXT(open64)(path, flags, mode);
     if (fd >= 0 && fd < MAXFD) g_fd_match[fd] = m ? 1 : 0;
     return fd;
@@ -94,7 +109,7 @@ int open64(const char *path, int flags, ...) {
 int openat(int dirfd, const char *path, int flags, ...) {
     va_list ap; va_start(ap, flags); mode_t mode = va_arg(ap, int); va_end(ap);
     int m = path_matches(path) && is_plain_read_open(flags);
-    if (m && hit("open", path)) { errno = g_errno; return -1; }
+    if (m && hit("open", path)) { if (!flip_instead()) { errno = g_errno; return -1; } }
     int fd = NEXT(openat)(dirfd, path, flags, mode);
     if (fd >= 0 && fd < MAXFD) g_fd_match[fd] = m ? 1 : 0;
     return fd;
@@ -102,7 +117,7 @@ int openat(int dirfd, const char *path, int flags, ...) {
 int openat64(int dirfd, const char *path, int flags, ...) {
     va_list ap; va_start(ap, flags); mode_t mode = va_arg(ap, int); va_end(ap);
     int m = path_matches(path) && is_plain_read_open(flags);
-    if (m && hit("open", path)) { errno = g_errno; return -1; }
+    if (m && hit("open", path)) { if (!flip_instead()) { errno = g_errno; return -1; } }
     int fd = NEXT(openat64)(dirfd, path, flags, mode);
     if (fd >= 0 && fd < MAXFD) g_fd_match[fd] = m ? 1 : 0;
     return fd;
@@ -112,44 +127,44 @@ int close(int fd) {
     return NEXT(close)(fd);
 }
 ssize_t read(int fd, void *buf, size_t n) {
-    if (fd >= 0 && fd < MAXFD && g_fd_match[fd] && hit("read", g_path)) { errno = g_errno; return -1; }
+    if (fd >= 0 && fd < MAXFD && g_fd_match[fd] && hit("read", g_path)) { if (!flip_instead()) { errno = g_errno; return -1; } }
     return NEXT(read)(fd, buf, n);
 }
 int ioctl(int fd, unsigned long req, ...) {
     va_list ap; va_start(ap, req); void *arg = va_arg(ap, void *); va_end(ap);
-    if (req == FS_IOC_FIEMAP_NR && fd >= 0 && fd < MAXFD && g_fd_match[fd] && hit("fiemap", g_path)) { errno = g_errno; return -1; }
+    if (req == FS_IOC_FIEMAP_NR && fd >= 0 && fd < MAXFD && g_fd_match[fd] && hit("fiemap", g_path)) { if (!flip_instead()) { errno = g_errno; return -1; } }
     return NEXT(ioctl)(fd, req, arg);
 }
 int statx(int dirfd, const char *path, int flags, unsigned int mask, struct statx *buf) {
-    if (path && path[0] && path_matches(path) && hit("stat", path)) { errno = g_errno; return -1; }
+    if (path && path[0] && path_matches(path) && hit("stat", path)) { if (!flip_instead()) { errno = g_errno; return -1; } }
     return NEXT(statx)(dirfd, path, flags, mask, buf);
 }
 int stat(const char *path, struct stat *buf) {
-    if (path_matches(path) && hit("stat", path)) { errno = g_errno; return -1; }
+    if (path_matches(path) && hit("stat", path)) { if (!flip_instead()) { errno = g_errno; return -1; } }
     return NEXT(stat)(path, buf);
 }
 int lstat(const char *path, struct stat *buf) {
-    if (path_matches(path) && hit("stat", path)) { errno = g_errno; return -1; }
+    if (path_matches(path) && hit("stat", path)) { if (!flip_instead()) { errno = g_errno; return -1; } }
     return NEXT(lstat)(path, buf);
 }
 int stat64(const char *path, struct stat64 *buf) {
-    if (path_matches(path) && hit("stat", path)) { errno = g_errno; return -1; }
+    if (path_matches(path) && hit("stat", path)) { if (!flip_instead()) { errno = g_errno; return -1; } }
     return NEXT(stat64)(path, buf);
 }
 int lstat64(const char *path, struct stat64 *buf) {
-    if (path_matches(path) && hit("stat", path)) { errno = g_errno; return -1; }
+    if (path_matches(path) && hit("stat", path)) { if (!flip_instead()) { errno = g_errno; return -1; } }
     return NEXT(lstat64)(path, buf);
 }
 int fstatat(int dirfd, const char *path, struct stat *buf, int flags) {
-    if (path && path[0] && path_matches(path) && hit("stat", path)) { errno = g_errno; return -1; }
+    if (path && path[0] && path_matches(path) && hit("stat", path)) { if (!flip_instead()) { errno = g_errno; return -1; } }
     return NEXT(fstatat)(dirfd, path, buf, flags);
 }
 int fstatat64(int dirfd, const char *path, struct stat64 *buf, int flags) {
-    if (path && path[0] && path_matches(path) && hit("stat", path)) { errno = g_errno; return -1; }
+    if (path && path[0] && path_matches(path) && hit("stat", path)) { if (!flip_instead()) { errno = g_errno; return -1; } }
     return NEXT(fstatat64)(dirfd, path, buf, flags);
 }
 ssize_t readlink(const char *path, char *buf, size_t n) {
-    if (path_matches(path) && hit("readlink", path)) { errno = g_errno; return -1; }
+    if (path_matches(path) && hit("readlink", path)) { if (!flip_instead()) { errno = g_errno; return -1; } }
     return NEXT(readlink)(path, buf, n);
 }
 DIR *opendir(const char *path) {
